@@ -693,6 +693,39 @@ func sliceRoot(v ssa.Value) ssa.Value {
 			return root
 		case *ssa.Extract:
 			return x.Tuple
+		case *ssa.Call:
+			// a helper that returns (a cut of) the slice it was handed: go on with the argument
+			h := x.Common().StaticCallee()
+			if h == nil || h.Blocks == nil || x.Common().IsInvoke() || core.FuncPkg(h) == nil || !core.IsKeto(core.FuncPkg(h)) || h.Signature.Results().Len() != 1 {
+				return v
+			}
+			idx := -1
+			okAll, nRet := true, 0
+			core.Instrs(h, func(_ *ssa.BasicBlock, _ int, ins ssa.Instruction) {
+				ret, isRet := ins.(*ssa.Return)
+				if !isRet || len(ret.Results) != 1 {
+					return
+				}
+				nRet++
+				rr := sliceRoot(ret.Results[0])
+				par, isPar := rr.(*ssa.Parameter)
+				if !isPar || par.Parent() != h {
+					okAll = false
+					return
+				}
+				for i, q := range h.Params {
+					if q == par {
+						if idx >= 0 && idx != i {
+							okAll = false
+						}
+						idx = i
+					}
+				}
+			})
+			if !okAll || nRet == 0 || idx < 0 || idx >= len(x.Common().Args) {
+				return v
+			}
+			v = x.Common().Args[idx]
 		default:
 			return v
 		}
